@@ -199,6 +199,11 @@ type FuncFacts struct {
 	memo    map[*ssa.BasicBlock]FactSet
 
 	phiIneqs []*Affine
+
+	// Assume holds function-wide facts supplied by a rule (caller context proven at every call site).
+	Assume FactSet
+	// Implications are conditional facts supplied by a rule (established callee postconditions).
+	Implications []Implication
 }
 
 // NewFuncFacts analyses fn with no pruning.
@@ -211,7 +216,7 @@ func NewFuncFacts(t *Terms) *FuncFacts {
 // Prune returns a copy of the analysis in which every if-edge whose fact equals
 // `assume.Neg()` is removed, i.e. the analysis under the assumption `assume`.
 func (ff *FuncFacts) Prune(assume ...Fact) *FuncFacts {
-	n := &FuncFacts{T: ff.T, Fn: ff.Fn, removed: map[[2]int]bool{}}
+	n := &FuncFacts{T: ff.T, Fn: ff.Fn, removed: map[[2]int]bool{}, Assume: ff.Assume, Implications: ff.Implications}
 	for k, v := range ff.removed {
 		n.removed[k] = v
 	}
